@@ -662,5 +662,62 @@ def setitem [DecidableEq O] (r : NT O) (ix : List Ix) (v : NT O) : Except IErr (
   | .error e => .error e
   | .ok rix => setAt r rix v
 
+/-! ### indexed assignment into a SHARED-MEMORY / MEMORY-MAPPED holder (known finding C16-storage-holder-write-dropped)
+
+`_td.py:_set_at_str` skips its non-tensor branch when the holder `_is_shared or _is_memmap` and calls `utils._set_item`:
+no comparison with the current content, NO promotion (`maybe_to_stack`); a `NonTensorData` entry would be replaced by a new
+stack (`from_nontensordata`) and a stack whose `stack_dim != 0` is rebuilt - both are then refused by `_set_at_str`
+(`tensor_in is not tensor_out` → `_SHARED_INPLACE_ERROR`).  A stack with `stack_dim == 0` is written with `tensor[index] = value`,
+the lazy-stack `__setitem__` of `assign` above - except that a member that is still a shared node (one payload for a whole
+sub-batch) ends in the tensorclass `_setitem` of `NonTensorData`, which copies the (empty) tensordict of the value and ignores
+its payload: the node SWALLOWS the write (unless the index does not mention its dims at all: then it is updated as a whole). -/
+mutual
+/-- `k` = how many leading items of `rix` the caller WROTE (after the expansion of an Ellipsis); the items behind them were
+filled in for the dims the index does not mention.  A member addressed by filled-in items only receives `_idx == ()` from
+`_split_index` and is written with `update(value, inplace=True)`; a member addressed by at least one written item - even a
+full slice - is written with `member[_idx] = value`. -/
+def storageAssign : NT O → List RIx → Nat → NT O → Except IErr (NT O)
+  | .shared o s, rix, k, v =>
+    if k == 0 || rix.isEmpty then
+      match v with
+      | .shared o' _ => .ok (.shared o' s)      -- the whole node is addressed: `update(value, inplace=True)` takes the payload
+      | .stack _ _ => .error .shape             -- "Cannot update a NonTensorData object with a NonTensorStack"
+    else .ok (.shared o s)                      -- NonTensorData.__setitem__ keeps nothing of the value's payload
+  | .stack ms d, rix, k, v =>
+    match splitAt rix d with
+    | none => .error .shape
+    | some (before, item, after) =>
+      let k' := if d < k then k - 1 else k
+      match item with
+      | .fixed i => (storageAssignNth ms i (before ++ after) k' v).map (fun ms' => .stack ms' d)
+      | item =>
+        match selectPositions ms.length item with
+        | none => .error .index
+        | some P =>
+          let pieces := unbind v (outShape before).length
+          if pieces.length ≠ P.length then .error .shape
+          else (storageAssignMembers ms 0 P pieces (before ++ after) k').map (fun ms' => .stack ms' d)
+def storageAssignNth : List (NT O) → Nat → List RIx → Nat → NT O → Except IErr (List (NT O))
+  | [], _, _, _, _ => .error .index
+  | m :: r, 0, rix, k, v => (storageAssign m rix k v).map (· :: r)
+  | m :: r, i + 1, rix, k, v => (storageAssignNth r i rix k v).map (m :: ·)
+def storageAssignMembers : List (NT O) → Nat → List Nat → List (NT O) → List RIx → Nat → Except IErr (List (NT O))
+  | [], _, _, _, _, _ => .ok []
+  | m :: r, j, P, pieces, rix, k =>
+    match lastPiece P pieces j with
+    | none => (storageAssignMembers r (j + 1) P pieces rix k).map (m :: ·)
+    | some piece =>
+      match storageAssign m rix k piece with
+      | .error e => .error e
+      | .ok m' => (storageAssignMembers r (j + 1) P pieces rix k).map (m' :: ·)
+end
+
+/-- `td[ix] = value` for the entry of a shared / memory-mapped holder (`utils._set_item` + the identity test of `_set_at_str`);
+`k` as above -/
+def storageSet (r : NT O) (rix : List RIx) (k : Nat) (v : NT O) : Except IErr (NT O) :=
+  match r with
+  | .shared _ _ => .error .shape          -- replaced by a new stack: refused (`_SHARED_INPLACE_ERROR`)
+  | .stack _ d => if d ≠ 0 then .error .shape else storageAssign r rix k v
+
 end NT
 end TdVerif.C16
